@@ -200,7 +200,7 @@ func replayOps(path, out, observe string) {
 		if err != nil {
 			fatal(err)
 		}
-		if ev.Op == "Match" || ev.Op == "Apply" {
+		if ev.Op == "Match" || ev.Op == "Apply" || ev.Op == "MatchText" || ev.Op == "ApplyText" {
 			labLines = append(labLines, []byte(line))
 			continue
 		}
